@@ -128,12 +128,16 @@ class Ledger:
         proved = [o for o in P if o.status == PROVED]
         undec = [o for o in self.obs if o.status == UNDECIDED]
         known_failed = sum(len(v[1]) for v in known_hit.values())
+        known_failed_P = sum(1 for v in known_hit.values() for o in v[1] if o.tier == "P")
         by_backend = {}
         for o in proved:
             by_backend[o.backend] = by_backend.get(o.backend, 0) + 1
         cov = {
-            "obligations": len(P),
+            # obligations claimed as proved: P-tier obligations minus those matched by an OPEN known finding
+            # (reported separately below; they are failed, not discharged)
+            "obligations": len(P) - known_failed_P,
             "discharged": len(proved),
+            "obligations_generated": len(P),
             "checker_cmd": checker_cmd or f"bin/check {self.prop} --tier {self.tier}",
             "trusted_base": trusted_base or [],
             "functions_under_contract": sorted(self.functions),
